@@ -308,6 +308,7 @@ theorem checkTDQuoteBody_ok {o : Option TdQuoteBody} (h : checkTDQuoteBody o = .
     obtain ⟨a8, h⟩ := guard_ok h
     obtain ⟨a9, h⟩ := guard_ok h
     obtain ⟨a10, h⟩ := guard_ok h
+    obtain ⟨_, h⟩ := guard_ok h
     obtain ⟨a11, h⟩ := guard_ok h
     have a12 := guard_unit_ok h
     simp only [beq_iff_eq] at a1 a2 a3 a4 a5 a6 a7 a8 a9 a10 a11
